@@ -51,8 +51,9 @@ class FunctionNode(ConfigDict):
     def on_merge_impl(self, prefix, other):
         if isinstance(other, str):
             if other.ayns.has_priority_over(self, if_equal=True):
-                self._func = other
-                self.clear()
+                if str(other) != self._func:
+                    self._func = other
+                    self.clear()
                 self._replace_self(other)
             else:
                 self._replace_other(other)
